@@ -37,4 +37,4 @@ package airtime
 //@   props C20
 //@   requires range: 0 <= payloadSize && payloadSize <= 255 && 5 <= sf && sf <= 12 && bandwidth >= 1 && bandwidth <= 2000 && 0 <= preambleNumber && preambleNumber <= 65535
 //@   ensures crrange: (err == nil) == (codingRate >= 1 && codingRate <= 4)
-//@   ensures formula: err == nil ==> int64(result0) == (100 * int64(preambleNumber) + 425) * ((int64(1) << sf) * 1000000 / int64(bandwidth)) / 100 + nsym(int64(payloadSize), int64(sf), int64(codingRate), !headerEnabled, lowDataRateOptimization) * ((int64(1) << sf) * 1000000 / int64(bandwidth))
+//@   ensures slow_formula: err == nil ==> int64(result0) == (100 * int64(preambleNumber) + 425) * ((int64(1) << sf) * 1000000 / int64(bandwidth)) / 100 + nsym(int64(payloadSize), int64(sf), int64(codingRate), !headerEnabled, lowDataRateOptimization) * ((int64(1) << sf) * 1000000 / int64(bandwidth))
